@@ -199,6 +199,34 @@ def build(ex):
         params={'self': ('const', None), 'block': ('const', None), 'timeout': ('const', None)}, self_class=PTW, setup=nr_setup,
         ensures=[nr_result], raises={'queue.Empty': None}, raises_only=['queue.Empty'],
         options={'on_block': 'oblige', 'chan_elem_inv': {'results.q': four_tuple}, 'recv_closed_check': False}), None))
+    # the same for the process kind, whose results endpoint is a PipeEndpoint (poll + recv) instead of a queue
+    PPW_ = 'pyworkers.persistent_process.PersistentProcessWorker'
+
+    def nr_setup_proc(ex_, env):
+        self_v = workers.process_parent(ex_, env, cls=PPW_)
+        a = ex_.heap[self_v.addr].attrs
+        rp, rends = common.make_pipe(ex_, 'results', 'Pipe')
+        ap, aends = common.make_pipe(ex_, 'args', 'Pipe')
+        a.update({'_results_pipe': rp, '_args_pipe': ap, '_closed': ex_.interp.sym('closed0', 'bool'), '_cleaned_up': VBool(False)})
+        ex_.abs_classes['Proc'].set(ex_, env['child'], 'alive', z3.BoolVal(False))
+        env['resq'] = rends['parent']
+        env['block'] = VBool(True)
+        env['timeout'] = NONE
+
+    def nr_result_proc(c):
+        ex_ = c.ex
+        q = c.env['resq']
+        inq = ex_.abs_classes['Conn'].get(ex_, q, 'inq')
+        p0 = z3.Select(ex_.old['absfields'][('Conn', 'ipos')], q.key)
+        lst = Val.vitems(inq[p0])
+        return z3.And(p0 < z3.Length(inq), ValList.vl_hd(ValList.vl_tl(lst)) == Val.v_bool(True),
+                      lower(c.env['result'], ex_) == ValList.vl_hd(ValList.vl_tl(ValList.vl_tl(lst))))
+    nr_result_proc.__doc__ = 'next_result returns the value of the head message, and only if its flag is True'
+    lemmas.append((Contract(
+        PWK + '.next_result', lid='L4-process', name='C06.L4-process next_result on a dead process worker never blocks: it returns the next delivered result or raises queue.Empty',
+        params={'self': ('const', None), 'block': ('const', None), 'timeout': ('const', None)}, self_class=PPW_, setup=nr_setup_proc,
+        ensures=[nr_result_proc], raises={'queue.Empty': None}, raises_only=['queue.Empty'],
+        options={'on_block': 'oblige', 'chan_elem_inv': {'results.parent': four_tuple}, 'recv_closed_check': False}), None))
     # ------------------------------------------------------------------ L5 the end marker can be written wherever the terminate landed
     # _cleanup runs in the finally block of the kind's run function; a terminate may land before the child has run _init_child().  So _cleanup may rely
     # only on what the CONSTRUCTORS establish: self is given exactly the attributes assigned by the __init__ methods along the MRO (read from the tree).
